@@ -34,8 +34,10 @@ def extract_segments(position, fns, cert):
     """-> ([segment text per evaluation site], tail of the guarded line).  A segment is the precommand lines
     followed by the `execute <conditions> run <tail>` line."""
     f = _lines(fns["f"])
+    if position.startswith("mif"):          # `$if`: which lines are macro lines is checked separately (macro_line_failure)
+        f = _lines(strip_macro(fns["f"]))
     ifelse = f"execute if score __if_else__ {cert['VAR']} matches 0 run "
-    if position == "if":
+    if position in ("if", "mif", "mif1"):
         segs = [f]
     elif position == "ifelse":
         if f[0] != f"scoreboard players set __if_else__ {cert['VAR']} 0" or not f[-1].startswith(ifelse):
@@ -63,6 +65,27 @@ def extract_segments(position, fns, cert):
         if g[2:3] != [step]:
             raise ValueError("for step not found")
         segs = [f[1:], _after_body(g, 1)]
+    elif position in ("expand", "mif_expand"):
+        # one segment per command of the batch: precommand lines + the command under the guard
+        cut = [i for i, l in enumerate(f) if l.endswith(" run " + B1)]
+        if len(cut) != 1 or not f[-1].endswith(" run " + B2):
+            raise ValueError("the two guarded commands of the expand batch not found")
+        second = f[cut[0] + 1:]
+        second[-1] = second[-1][:-len(B2)] + B1          # same tail, so that the sites can be compared
+        segs = [f[:cut[0] + 1], second]
+    elif position in ("async_while", "async_for", "async_forp"):
+        loop = "while_loop" if position == "async_while" else "for_loop"
+        delay = "1t" if position == "async_while" else "2t"
+        pre = [] if position == "async_while" else [f"scoreboard players set $i_ {cert['VAR']} 0"]
+        step = [] if position == "async_while" else [f"scoreboard players add $i_ {cert['VAR']} 1"]
+        if f[:-1] != pre:
+            raise ValueError("async loop entry not found")
+        test = _callee(f[-1], fns)
+        body = _callee(test[-1], fns)
+        m = re.match(r"^function ([^:\s]+:\S+)$", f[-1])
+        if body != [B1, B2] + step + [f"schedule function {m.group(1)} {delay}"] or f"/{loop}/" not in test[-1]:
+            raise ValueError("async loop body / re-schedule line not found")
+        segs = [test]
     else:
         raise ValueError(position)
     for s in segs:
@@ -265,6 +288,20 @@ def invalid_line(line):
     if i >= len(t) - 1:
         return "no command after run"
     return invalid_line(" ".join(t[i + 1:]))
+
+
+def macro_line_failure(seg):
+    """`$if`: a line is a macro line (starts with `$`) iff it mentions a macro variable `$(...)`.  A macro line without a
+    variable does not load ("Macro without variables"); a variable on a plain line is never substituted."""
+    for ln in seg.split("\n"):
+        if ln.startswith("$") != ("$(" in ln):
+            why = "macro line without a macro variable" if ln.startswith("$") else "macro variable on a line that is not a macro line"
+            return dict(kind="invalid-command", detail=f"{why}: {ln}", init=dict(scores={}, stale_flags=False))
+    return None
+
+
+def strip_macro(seg):
+    return "\n".join(ln[1:] if ln.startswith("$") else ln for ln in seg.split("\n"))
 
 
 def is_flag(k, cert):
